@@ -243,7 +243,26 @@ func build(c *lib.Ctx) []*sched.Scenario {
 		for _, p := range s.producers {
 			total += len(p)
 		}
-		out = append(out, &sched.Scenario{Name: s.name, MaxBound: s.maxBound, MaxSteps: 20000,
+		out = append(out, &sched.Scenario{Name: s.name, MaxBound: s.maxBound, MaxSteps: 20000, NoStmtYield: true,
+			New: func() sched.Execution {
+				return &exec{sc: s, sent: make([]int, len(s.producers)), total: total}
+			}})
+	}
+	// statement granularity: the same scenarios with a scheduling point before
+	// every statement of priority_queue.go (not only at its lock and condition
+	// operations), so that a critical section that is too short - an unlock moved
+	// up, a field read before the lock is taken - is an explorable interleaving
+	// too; smaller bound
+	for _, s := range scenarios(c) {
+		s := s
+		if c.Quick() && strings.HasPrefix(s.name, "B-") && s.name != "B-buf2-prio0110" {
+			continue
+		}
+		total := 0
+		for _, p := range s.producers {
+			total += len(p)
+		}
+		out = append(out, &sched.Scenario{Name: s.name + "/stmt", MaxBound: lib.Pick(c, 1, 2), MaxSteps: 60000,
 			New: func() sched.Execution {
 				return &exec{sc: s, sent: make([]int, len(s.producers)), total: total}
 			}})
@@ -252,13 +271,7 @@ func build(c *lib.Ctx) []*sched.Scenario {
 }
 
 func run(c *lib.Ctx) {
-	for _, sc := range build(c) {
-		if c.Expired() {
-			c.Cap("scenario %s not started", sc.Name)
-			continue
-		}
-		sched.Explore(c, sc)
-	}
+	sched.ExploreAll(c, build(c))
 }
 
 func replay(c *lib.Ctx, raw json.RawMessage) { sched.Replay(c, build(c), raw) }
